@@ -11,8 +11,8 @@ import (
 
 func init() {
 	eng.Register(&eng.Check{
-		ID: "C03",
-		Rule: "differential on the implementation: all ordered pairs (A,B) of a pool of sub-expressions (atoms of every operator, absent-key atoms, erroring atoms, quantified, negated, nested) x a data set on which each sub-expression takes each of T/F/E; composites (A) and (B), (A) or (B), not (A), not not (A) and both De Morgan rewrites are compared with the 3x3 / 3x1 outcome table applied to the implementation's own outcomes of A and B evaluated alone. Distinct by construction; non-trivial = composite evaluated (every case exercises a connective). The evidence lists which table cells were observed.",
+		ID:          "C03",
+		Rule:        "differential on the implementation: all ordered pairs (A,B) of a pool of sub-expressions (atoms of every operator, absent-key atoms, erroring atoms, quantified, negated, nested) x a data set on which each sub-expression takes each of T/F/E; composites (A) and (B), (A) or (B), not (A), not not (A) and both De Morgan rewrites are compared with the 3x3 / 3x1 outcome table applied to the implementation's own outcomes of A and B evaluated alone. Distinct by construction; non-trivial = composite evaluated (every case exercises a connective). The evidence lists which table cells were observed.",
 		Assumptions: []string{"three-valued outcomes: an error is an error whatever boolean accompanies it (the (true,err) shape is C09's business)", "bounded: sub-expression pool and data set as stated"},
 		Run:         runC03,
 		Finalize: func(tier string, r *eng.Result) {
